@@ -12,7 +12,7 @@ EMPTY_VARIANTS = {"None", "Ok", "Empty", "Retry"}
 
 
 class Linear:
-    def __init__(self, body, initial_holders, sources, sinks, keep=None, ret_is_sink=True, transparent=None):
+    def __init__(self, body, initial_holders, sources, sinks, keep=None, ret_is_sink=True, transparent=None, watch=None):
         """sources: pred(callee, term) -> True if the call's destination holds a fresh item (wrapped or not)
            sinks:   pred(callee, term) -> 'consume' | 'maybe-return' (Worker::push: Ok consumes, Err(item) hands it back) | None
            transparent: pred(callee, term) -> True if the call hands the item in arg0 through to its result
@@ -24,9 +24,13 @@ class Linear:
         self.sinks = sinks
         self.ret_is_sink = ret_is_sink
         self.transparent = transparent or (lambda c, t: False)
+        self.watch = watch    # pred(adt_npath) -> True: remember which arm of a match on that enum the path took
         self.events = []     # violations: (kind, bid, detail)
         self.exits = []      # (bid, holders, consumed)
         self.visited = 0
+
+    def _ev(self, e):
+        self.events.append(e + (getattr(self, "_ctx", ()),))
 
     def _moves_from(self, op, holders):
         """If operand moves/copies a holder (possibly through a downcast field, e.g. (x as Err).0), return that holder."""
@@ -40,13 +44,18 @@ class Linear:
                 if isinstance(e, dict) and "dc" in e and i + 1 < len(proj) and isinstance(proj[i + 1], dict) and "f" in proj[i + 1]:
                     i += 2
                     continue
+                # moving a field out of the holder (tuple element, struct field that is the item) is a move of the item;
+                # a *copy* of a field (an id, a timestamp) is not
+                if isinstance(e, dict) and "f" in e and op["k"] == "move":
+                    i += 1
+                    continue
                 return None
             return l
         return None
 
     def run(self, start=0, start_state=None):
         body = self.body
-        st0 = start_state or (self.init, 0, frozenset())
+        st0 = start_state or (self.init, 0, frozenset(), ())
         work = [(start, st0)]
         seen = set()
         while work:
@@ -56,9 +65,10 @@ class Linear:
             seen.add((bid, st))
             self.visited += 1
             if self.visited > 200000:
-                self.events.append(("explosion", bid, "state space too large"))
+                self._ev(("explosion", bid, "state space too large"))
                 return
-            holders, consumed, flags = st
+            holders, consumed, flags, ctx = st
+            self._ctx = ctx
             kinds = dict(holders)
             holders = set(kinds)
             flags = dict(flags)
@@ -97,11 +107,11 @@ class Linear:
                         if moved:
                             holders.discard(src)
                         if l in holders and l != src and not lhs["proj"]:
-                            self.events.append(("overwritten", bid, "local _%d holding an item is overwritten at line %s" % (l, s["line"])))
+                            self._ev(("overwritten", bid, "local _%d holding an item is overwritten at line %s" % (l, s["line"])))
                         holders.add(l)
                         kinds[l] = "item:" + kinds.get(src, "item:p").split(":")[1]
                 elif l in holders and not lhs["proj"] and rv["k"] != "discr":
-                    self.events.append(("overwritten", bid, "local %s holding an item is overwritten at line %s" % (body.name_of(l), s["line"])))
+                    self._ev(("overwritten", bid, "local %s holding an item is overwritten at line %s" % (body.name_of(l), s["line"])))
                     holders.discard(l)
             t = blk["term"]
             k = t["k"]
@@ -126,17 +136,30 @@ class Linear:
                         holders.add(dest)
                         kinds[dest] = "item:" + origin
                     else:
-                        self.events.append(("escaped", bid, "item moved into %s at line %s, which is not a modelled sink" % (c or "<fn pointer>", t["line"])))
+                        self._ev(("escaped", bid, "item moved into %s at line %s, which is not a modelled sink" % (c or "<fn pointer>", t["line"])))
                 elif self.sources(c, t):
                     if dest in holders:
-                        self.events.append(("overwritten", bid, "local %s holding an item is overwritten by %s at line %s" % (body.name_of(dest), c, t["line"])))
+                        self._ev(("overwritten", bid, "local %s holding an item is overwritten by %s at line %s" % (body.name_of(dest), c, t["line"])))
                     holders.add(dest)
                     kinds[dest] = "item:s"
+                    ctx = ()          # a fresh item: arm context of the previous one no longer applies
                 if t.get("target") is not None:
                     nxt_states.append((t["target"], holders, consumed, flags))
             elif k == "switch":
                 si = switch_info(body, self.du, bid)
                 dl = op_local(t["discr"])
+                if self.watch and si["kind"] == "discr" and self.watch(norm(si["adt"] or "")) and not (si["place"]["l"] in holders and not si["place"]["proj"]):
+                    tg = {}
+                    for name, bb in si["arms"].items():
+                        tg.setdefault(bb, []).append(name)
+                    for bb in term_succs(t):
+                        names = tuple(sorted(tg.get(bb) or si.get("rest") or ["?"]))
+                        nxt_states.append((bb, holders, consumed, flags, names))
+                    for item in nxt_states:
+                        pass
+                    for (bb, hs, cs, fl, cx) in nxt_states:
+                        work.append((bb, (frozenset((h, kinds.get(h, "item:p")) for h in hs), cs, frozenset(fl.items()), cx)))
+                    continue
                 if si["kind"] == "discr" and si["place"]["l"] in holders and not si["place"]["proj"]:
                     h = si["place"]["l"]
                     tg = {}
@@ -169,7 +192,7 @@ class Linear:
             elif k == "drop":
                 pl = t["p"]
                 if pl["l"] in holders and not pl["proj"]:
-                    self.events.append(("dropped", bid, "item held in %s is dropped at line %s" % (body.name_of(pl["l"]), t["line"])))
+                    self._ev(("dropped", bid, "item held in %s is dropped at line %s" % (body.name_of(pl["l"]), t["line"])))
                     holders.discard(pl["l"])
                 nxt_states.append((t["target"], holders, consumed, flags))
             elif k == "return":
@@ -177,11 +200,11 @@ class Linear:
                 left = [h for h in holders if h != 0]
                 for h in left:
                     if kinds.get(h, "").startswith("push-result"):
-                        self.events.append(("unchecked", bid, "result of a fallible push (%s) is never inspected: an Err(item) would be lost" % body.name_of(h)))
+                        self._ev(("unchecked", bid, "result of a fallible push (%s) is never inspected: an Err(item) would be lost" % body.name_of(h)))
                 if left:
-                    self.events.append(("leaked", bid, "function returns while %s still hold(s) an item" % ", ".join(body.name_of(h) for h in left)))
+                    self._ev(("leaked", bid, "function returns while %s still hold(s) an item" % ", ".join(body.name_of(h) for h in left)))
             else:
                 for bb in term_succs(t):
                     nxt_states.append((bb, holders, consumed, flags))
             for (bb, hs, cs, fl) in nxt_states:
-                work.append((bb, (frozenset((h, kinds.get(h, "item:p")) for h in hs), cs, frozenset(fl.items()))))
+                work.append((bb, (frozenset((h, kinds.get(h, "item:p")) for h in hs), cs, frozenset(fl.items()), ctx)))
